@@ -234,6 +234,10 @@ def run_property(pid, tier, seed, jobs=None, max_report=40):
     known_hits = collections.OrderedDict()
     nondet = []
     rdir = os.path.join(VERIF, 'replays', pid)
+    if os.environ.get('VERIF_LIST'):
+        for (check, tagj), vs in groups.items():
+            print('CLASS %s %s x%d :: %s' % (check, tagj, len(vs), vs[0]['detail'][:200].replace('\n', ' ')))
+    pending = []
     for (check, tagj), vs in groups.items():
         v = min(vs, key=lambda x: len(json.dumps(x['case'], default=str)))
         k = match_known(v, pid, known)
@@ -252,10 +256,19 @@ def run_property(pid, tier, seed, jobs=None, max_report=40):
                       f, indent=1, default=str)
         if v['tags'].get('kind') == 'harness-exception':
             nondet.append((path, 'harness exception: ' + v['detail'][-300:]))
-        elif confirm(pid, path, v['tags'], check):
-            unknown_lines.append((path, check, v))
         else:
-            nondet.append((path, 'violation did not reproduce identically twice in a fresh process'))
+            pending.append((path, check, v))
+            unknown_lines.append(None)
+    unknown_lines = []
+    if pending:
+        from concurrent.futures import ThreadPoolExecutor
+        with ThreadPoolExecutor(8) as ex:
+            oks = list(ex.map(lambda t: confirm(pid, t[0], t[2]['tags'], t[1]), pending))
+        for t, ok in zip(pending, oks):
+            if ok:
+                unknown_lines.append(t)
+            else:
+                nondet.append((t[0], 'violation did not reproduce identically twice in a fresh process'))
     wall = time.time() - t0
     n_out = len([o for o in outcomes if outcomes[o]])
     cov = {
